@@ -38,6 +38,25 @@ func findProject(path string) (*Project, error) {
 	}
 }
 
+// findProjectRoot finds the root directory of the project which the given path belongs to. It
+// returns an empty string when no project is found.
+func findProjectRoot(path string) string {
+	d := absPath(path)
+	for {
+		if s, err := os.Stat(filepath.Join(d, ".github", "workflows")); err == nil && s.IsDir() {
+			if _, err := os.Stat(filepath.Join(d, ".git")); err == nil { // Note: .git may be a file
+				return d
+			}
+		}
+
+		p := filepath.Dir(d)
+		if p == d {
+			return ""
+		}
+		d = p
+	}
+}
+
 // NewProject creates a new instance with a file path to the root directory of the repository.
 // This function returns an error when failing to parse an actionlint config file in the repository.
 func NewProject(root string) (*Project, error) {
@@ -62,8 +81,9 @@ func (p *Project) WorkflowsDir() string {
 // Knows returns true when the project knows the given file. When a file is included in the
 // project's directory, the project knows the file.
 func (p *Project) Knows(path string) bool {
-	// TODO: strings.HasPrefix is not perfect to check file path
-	return strings.HasPrefix(absPath(path), p.root)
+	a := absPath(path)
+	// Compare per path component: "/path/to/repo2/file" is not in the project at "/path/to/repo"
+	return a == p.root || strings.HasPrefix(a, strings.TrimSuffix(p.root, string(filepath.Separator))+string(filepath.Separator))
 }
 
 // Config returns config object of the GitHub project repository. The config file was read from
@@ -89,7 +109,8 @@ func NewProjects() *Projects {
 // from the path.
 func (ps *Projects) At(path string) (*Project, error) {
 	for _, p := range ps.known {
-		if p.Knows(path) {
+		// The file belongs to the nearest repository. It may be nested in a known one (e.g. Git submodule)
+		if p.Knows(path) && p.root == findProjectRoot(path) {
 			return p, nil
 		}
 	}
